@@ -58,7 +58,7 @@ var knobsHealth = Knobs{MinInst: 1, MaxInst: 3, LatFrac: 0.2, WatchDelayH: 0.5, 
 
 func TestC12(t *testing.T) {
 	RunCheck(t, CheckSpec{Prop: "C12",
-		Rule: "1-3 instances with a scripted health checker (healthy / unhealthy / slow-then-healthy / slow-then-unhealthy = blocks until the supplied context is done), thresholds MaxConsecutiveFailures in {0(->3),1,2,3,5}, scripts that over-weight runs of threshold-1, threshold, threshold+1 unhealthy results, runs of 30-70 H so that an instance leads several terms (re-acquires after its record lapses), occasional stops/restarts; oracle: a reference consecutive-failure counter per term fed with the checker's own call log decides on which tick the health mechanism must demote (exactly at the threshold, never below, reset by a healthy result and by a new term), plus ctx deadline <= 100ms, no refresh on unhealthy ticks, OnDemote, FOLLOWER afterwards and re-election of a sole candidate within 600ms + latencies of the record's lapse. Non-trivial = a script with >= 1 unhealthy result reached a leader; distinct by plan hash.",
+		Rule: "1-3 instances with a scripted health checker (healthy / unhealthy / slow-then-healthy / slow-then-unhealthy = blocks until the supplied context is done), thresholds MaxConsecutiveFailures in {0(->3),1,2,3,5}, scripts that over-weight runs of threshold-1, threshold, threshold+1 unhealthy results, runs of 30-70 H so that an instance leads several terms (re-acquires after its record lapses), occasional stops/restarts, in a third of the plans isolated transient failures of 1-6 of the instance's first 25 refreshes; oracle: a reference consecutive-failure counter per term fed with the checker's own call log decides on which tick the health mechanism must demote (exactly at the threshold, never below, reset by a healthy result and by a new term), plus ctx deadline <= 100ms, no refresh on unhealthy ticks, OnDemote, FOLLOWER afterwards and re-election of a sole candidate within 600ms + latencies of the record's lapse. Non-trivial = a script with >= 1 unhealthy result reached a leader; distinct by plan hash.",
 		Gen: func(t *rapid.T) *Plan {
 			p := GenPlan(t, "health", knobsHealth)
 			for i := range p.Instances {
@@ -66,6 +66,19 @@ func TestC12(t *testing.T) {
 					p.Instances[i].HasHealth = true
 					p.Instances[i].MCF = rapid.SampledFrom([]int{0, 1, 2, 3, 5}).Draw(t, "mcf0")
 					p.Instances[i].Health = GenHealthScript(t, p.Instances[i].MCF)
+				}
+			}
+			// isolated transient refresh failures of an instance with a checker: a healthy answer counts
+			// whatever becomes of the store write of the same tick
+			if rapid.IntRange(0, 2).Draw(t, "hb_faults") == 0 {
+				for i := range p.Instances {
+					if !p.Instances[i].HasHealth {
+						continue
+					}
+					for _, n := range rapid.SliceOfNDistinct(rapid.IntRange(0, 24), 1, 6, rapid.ID[int]).Draw(t, "hb_fault_n") {
+						p.Instances[i].Rules = append(p.Instances[i].Rules, OpRule{Kind: OpUpdate, N: n, Fault: FaultErr,
+							ErrKind: rapid.SampledFrom([]string{ErrKTimeout, ErrKNoResponders, ErrKClosed}).Draw(t, "hb_fault_err")})
+					}
 				}
 			}
 			return p
